@@ -13,13 +13,22 @@ ARDUINOJSON_BEGIN_PRIVATE_NAMESPACE
 class JsonStringAdapter : public SizedRamString {
  public:
   JsonStringAdapter(const JsonString& s)
-      : SizedRamString(s.c_str(), s.size()), linked_(s.isLinked()) {}
+      : SizedRamString(s.c_str(), s.size()),
+        linked_(s.isLinked() && endsAtItsTerminator(s)) {}
 
   bool isLinked() const {
     return linked_;
   }
 
  private:
+  // A string stored by address is read back up to its NUL: a linked JsonString
+  // whose size says otherwise (a window on a longer buffer, an embedded NUL)
+  // must be copied to keep its size.
+  static bool endsAtItsTerminator(const JsonString& s) {
+    const char* p = s.c_str();
+    return p && !::memchr(p, 0, s.size()) && p[s.size()] == '\0';
+  }
+
   bool linked_;
 };
 
